@@ -231,6 +231,31 @@ def product_partial_evaluation(S):
         S.forall("membership-accepts-points-of-the-slice", res, lambda q: z3.Implies(z3.And(zreal(XY.val.at([q[0], (2,)])) == y0, A.in_pred([zreal(XY.val.at([q[0], (c,)])) for c in range(2)], [y0, zreal(Tt.val.at([q[0], ()]))]), B.in_pred([y0], [zreal(Tt.val.at([q[0], ()]))])), res.at(q)))
 
 
+@scenario("C17", [ops.PROD + ".__call__", ops.PROD + "._create_point_data"], configs=["keywords-in-reverse-space-order"], bounded=BOUND)
+def product_fixing_a_factor_with_two_variables_binds_the_values_by_name(S):
+    """(A over p, q) x (B over y), evaluated at q = Q0, p = P0 with the keywords NOT in the order of the factor's space
+    (one value a tensor, one a number): the first factor becomes the point (p, q) = (P0, Q0) -- the values are bound
+    by NAME, so the slice accepts (P0, Q0, y) for y in B and rejects points whose p or q is far from its own value."""
+    sp = S.I.binop(ast.Mult(), S.new(R1, "p"), S.new(R1, "q"))
+    A = abstract_domain(S, "A", sp)
+    B = abstract_domain(S, "B", S.new(R1, "y"))
+    dom = S.new(ops.PROD, A.obj, B.obj)
+    P0 = S.tensor("P0", [1, 1])
+    p0 = zreal(P0.val.at([(), ()]))
+    q0 = S.real("Q0")
+    d2 = S.call(dom, q=q0, p=P0)
+    S.ensure("product-domain-again", d2.cls is dom.cls)
+    S.ensure("no-free-variables-left", set(S.getattr(d2, "necessary_variables")) == set())
+    N = S.int("N", 1)
+    V = S.tensor("V", [N, 3])
+    pts = S.new(POINTS, V, S.I.binop(ast.Mult(), sp, S.new(R1, "y")))
+    res = S.method(d2, "_contains", pts).val
+    col = lambda q, c: zreal(V.val.at([q[0], (c,)]))
+    absz = lambda e: z3.If(e >= 0, e, -e)
+    S.forall("accepts-the-fixed-values-by-name", res, lambda q: z3.Implies(z3.And(col(q, 0) == p0, col(q, 1) == q0.t, B.in_pred([col(q, 2)], [])), res.at(q)))
+    S.forall("rejects-points-far-from-the-value-of-the-same-name", res, lambda q: z3.Implies(res.at(q), z3.And(absz(col(q, 0) - p0) <= (absz(p0) + 1) / 100, absz(col(q, 1) - q0.t) <= (absz(q0.t) + 1) / 100)))
+
+
 @scenario("C17", [DPKG + "domain1D.interval.IntervalSingleBoundaryPoint.__call__"], configs=["left", "right"], bounded=BOUND)
 def interval_single_boundary_point_partial_evaluation(S):
     lo = RowFn("lower_bound", ["t"], 1, {"t": 1})
